@@ -477,11 +477,16 @@ inductive Ix where
   | none
   | ell
   | list (l : List Int)
+  | mask (bits : List Bool)        -- a 1-d boolean mask over one dim
   deriving Repr, DecidableEq
 
 def Ix.consumes : Ix → Bool
-  | .int _ | .slice _ _ _ | .list _ => true
+  | .int _ | .slice _ _ _ | .list _ | .mask _ => true
   | _ => false
+
+/-- the positions a 1-d mask selects (`mask.nonzero()`), in order -/
+def truePositions (bits : List Bool) : List Nat :=
+  (List.range bits.length).filter (fun i => bits.getD i false)
 
 /-- python integer index against a dim of size `n`: negative wraps, out of range is an IndexError -/
 def normInt (i : Int) (n : Nat) : Option Nat :=
@@ -525,6 +530,15 @@ def resolveItems : Shape → List Ix → Except IErr (List RIx)
     match l.mapM (fun i => normInt i n) with
     | none => .error .index
     | some js => (resolveItems s r).map (.pick js :: ·)
+  | n :: s, .mask bits :: r =>
+    -- a 1-d mask must have the size of the dim it indexes (IndexError otherwise); it selects its True positions.  On a lazy
+    -- stack the code takes the mask branch of `_split_index` (the members whose bit is set are re-stacked; on another dim the
+    -- members are indexed with the mask); the REPRESENTATION of the result is that of the index list of the True positions —
+    -- tied by the correspondence stream, the theorem is about this resolved form.  An all-False mask (empty result) is outside
+    -- the grammar, like every empty selection.
+    if bits.length ≠ n then .error .index
+    else if truePositions bits = [] then .error .empty
+    else (resolveItems s r).map (.pick (truePositions bits) :: ·)
 
 def resolve (s : Shape) (ix : List Ix) : Except IErr (List RIx) :=
   match expandEll s.length ix with
